@@ -98,7 +98,7 @@ func main() {
 		Rule: "structural enumeration under recover(): XMSS Verify / VerifyWithCustomWOTSParamW(4,16,256) on every signature length 0..base+31*32+40 x every descriptor (w=16: all 2^16; w=4,256: quick 5^4 nibble alphabet, thorough 2^16) and, for the cases that pass the guards, x 4 fills x 4 message lengths; " +
 			"address functions on all 2^16 descriptors x fills; dilithium.Verify/Open on every sealed length 0..4595+300, every single-byte substitution of the hint section x 256 values, extreme z, pk fills; mnemonic decoders on every token sequence of length <= 4 over a 7-token alphabet and single deviations in 30..36-word phrases. " +
 			"oracle: value or explicit string panic; a runtime.Error is a violation; Dilithium entry points may not panic at all; inputs unchanged. non-trivial = a case that gets past the structural guards (reaches hashing / decoding)",
-		Assumptions: []string{"'never loops forever' is checked by a 120 s no-progress horizon per case (about 10^4 x the slowest legitimate call)", "a non-runtime error-typed panic is counted, not alarmed on"}}
+		Assumptions: []string{"'never loops forever' is checked by a 10 min no-progress horizon per case (more than 10^5 x the slowest legitimate call)", "a non-runtime error-typed panic is counted, not alarmed on"}}
 	// --- XMSS verify: all lengths x all descriptors (cheap rejects + the guard-passing cases with a zero fill)
 	xmssSweep := func(name, tier string, w uint32, descs func(k int64) (byte, byte), nd int64) {
 		maxLen := int64(baseSize(w) + 31*32 + 40)
